@@ -55,8 +55,8 @@ func (pipeline *Pipeline) directDepsMap() (map[*CallStm]map[*CallStm]struct{}, e
 			return errs.If()
 		case *MapExp:
 			var errs ErrorList
-			for _, subExp := range exp.Value {
-				if err := findDeps(src, subExp); err != nil {
+			for _, key := range sortedKeys(exp.Value) {
+				if err := findDeps(src, exp.Value[key]); err != nil {
 					errs = append(errs, err)
 				}
 			}
@@ -88,8 +88,8 @@ func (pipeline *Pipeline) directDepsMap() (map[*CallStm]map[*CallStm]struct{}, e
 func (pipeline *Pipeline) findMissingDeps(src *CallStm, deps map[*CallStm]struct{},
 	depsMap map[*CallStm]map[*CallStm]struct{}) ([]*CallStm, error) {
 	var missing []*CallStm
-	for dep := range deps {
-		for transDep := range depsMap[dep] {
+	for _, dep := range sortedCalls(deps) {
+		for _, transDep := range sortedCalls(depsMap[dep]) {
 			if _, ok := deps[transDep]; !ok {
 				if transDep == src {
 					return nil, &wrapError{
@@ -114,7 +114,8 @@ func (pipeline *Pipeline) addNextDeps(depsMap map[*CallStm]map[*CallStm]struct{}
 	for changes {
 		extraDeps := make(map[*CallStm][]*CallStm)
 		var errs ErrorList
-		for src, deps := range depsMap {
+		for _, src := range sortedCalls(depsMap) {
+			deps := depsMap[src]
 			if missing, err := pipeline.findMissingDeps(src, deps, depsMap); err != nil {
 				errs = append(errs, err)
 			} else if len(missing) > 0 {
